@@ -52,7 +52,7 @@ func verifMutate(m *Bitmap, k int) {
 
 func VerifH03Isolation() {
 	kind := 1 - verifChoice("kind", verifBound("kinds", 2)) // tree-backed first
-	typ := verifChoice("typ", 3)
+	typ := verifChoice("typ", verifBound("atyps", 3))
 	verifNearBase = 0
 	a, _ := verifMkOne("a", kind, 1, typ)
 	b, _ := verifMkOne("b", 0, 1, verifChoice("btyp", verifBound("btyps", 2)))
